@@ -237,7 +237,10 @@ impl Num {
     /// Optimize (abbreviation) the number
     /// Also, it makes that only denominator is positive.
     fn optimize(&mut self) {
-        let g = BigNum::gcd(&self.up, &self.down);
+        let mut g = BigNum::gcd(&self.up, &self.down);
+        if !g.is_pos() {
+            g.minus();
+        }
         self.up /= &g;
         self.down /= &g;
     }
